@@ -189,6 +189,8 @@ def check_case(ctx, case, via='function', index=0):
             import sys
             env = dict(os.environ)
             env['PYTHONPATH'] = core.REPO
+            if os.environ.get('SPOWTD_VERIF_OPTIMIZE') == '1':
+                env['PYTHONOPTIMIZE'] = '1'
             pr = subprocess.run([sys.executable, '-B', os.path.join(core.REPO, 'bin', 'spowtd')] + argv, env=env, capture_output=True, text=True, timeout=600)
             status, exc = pr.returncode, None
             if status != 0:
